@@ -111,6 +111,9 @@ class Clock:
     def fromisoformat(self, s):
         return datetime.fromisoformat(s)
 
+    def __call__(self, *a, **k):
+        return datetime(*a, **k)
+
     def __getattr__(self, k):
         return getattr(datetime, k)
 
@@ -151,6 +154,7 @@ def one_case(ctx, M, keys, case, verbose=False):
     saved = (S.timestamp, S.datetime)
     S.timestamp = lambda: ts
     want = None          # (issuer component | None, not_before instant, not_after instant) when defined by the request
+    nb_alt = None
     try:
         try:
             if fn == 'self':
@@ -163,6 +167,7 @@ def one_case(ctx, M, keys, case, verbose=False):
                 S.datetime = Clock([now1, now2])
                 out = S.sign_req(key_name_py(kn), pub, rec)
                 want = (bytes(S.SIGN_REQ_COMPONENT), instant(now2), instant(now1) + 10 * 86400)
+                nb_alt = instant(now1)     # either reading of the clock is "now"
             elif fn == 'derive':
                 start = mk_time(case['start'])
                 iss = case['issuer']
@@ -255,6 +260,12 @@ def one_case(ctx, M, keys, case, verbose=False):
     if [D.val_sexp(v) for v in pvals] != jsonless(vs):
         ctx.violation('parse_certificate', 'parse-differs', 'parse_certificate does not return the strictly read field values', c)
     kn_norm = [bytes(x) for x in Name.normalize(key_name_py(kn))]
+    if nb_alt is not None and nb_alt != nb:
+        try:
+            if bytes(pc.signature_info.validity_period.not_before) == (datetime(1970, 1, 1) + timedelta(seconds=nb_alt)).strftime(FMT).encode():
+                nb = nb_alt
+        except Exception:   # noqa
+            pass
     if signer is None:
         st, kl = [], []
     else:
@@ -486,15 +497,14 @@ def run(ctx):
     for fn in ('derive', 'new', 'self', 'req'):
         for sg in ISSUERS:
             for sub in SUBJECTS:
-                for _ in range(ctx.n(1, 25)):
+                for _ in range(ctx.n(1, 12)):
                     one_case(ctx, M, keys, rand_case(rng, fn, sg, sub))
     # 2. random mixture, incl. malformed names / issuers / out-of-range times
-    for _ in range(ctx.n(500, 20000)):
+    for _ in range(ctx.n(500, 8000)):
         one_case(ctx, M, keys, rand_case(rng))
     # 3. validity: every boundary start x duration, naive / UTC / offsets, on the cheapest signer
-    bt = BOUNDARY_TIMES if ctx.thorough else BOUNDARY_TIMES
-    for (y, mo, d, h, mi, s) in bt:
-        for off in (OFFSETS[1:] if ctx.thorough else [None, 0, rng.choice(OFFSETS[4:])]):
+    for (y, mo, d, h, mi, s) in BOUNDARY_TIMES:
+        for off in (OFFSETS[1::2] if ctx.thorough else [None, 0, rng.choice(OFFSETS[4:])]):
             for e in (DURATIONS if ctx.thorough else rng.sample(DURATIONS, 4)):
                 one_case(ctx, M, keys, {'fn': 'derive', 'key_name': ['str', '/a/KEY/k'], 'pub': b'pk', 'signer': 'digest', 'ts': 5,
                                         'issuer': ['text', 'ca'], 'start': [y, mo, d, h, mi, s, 0, off], 'expire': e})
